@@ -5,7 +5,7 @@ export MUT_LAB=${MUT_LAB:-/tmp/mutlab}
 # Usage: seeded_all.sh [round [prop ...]]   round 1 = /tmp/wt-Cxx (kept as <prop>-<n>), round 2 = /tmp/wt2-Cxx (<prop>-b<n>), round 3 = /tmp/wt3-Cxx (<prop>-c<n>), round 4 = /tmp/wt4-Cxx (<prop>-d<n>)
 round=${1:-1}; shift
 props="$@"
-if [ "$round" = "2" ]; then pre=/tmp/wt2-; tag=b; elif [ "$round" = "3" ]; then pre=/tmp/wt3-; tag=c; elif [ "$round" = "4" ]; then pre=/tmp/wt4-; tag=d; elif [ "$round" = "5" ]; then pre=/tmp/wt5-; tag=e; else pre=/tmp/wt-; tag=; fi
+if [ "$round" = "2" ]; then pre=/tmp/wt2-; tag=b; elif [ "$round" = "3" ]; then pre=/tmp/wt3-; tag=c; elif [ "$round" = "4" ]; then pre=/tmp/wt4-; tag=d; elif [ "$round" = "5" ]; then pre=/tmp/wt5-; tag=e; elif [ "$round" = "6" ]; then pre=/tmp/wt6-; tag=f; else pre=/tmp/wt-; tag=; fi
 [ -z "$props" ] && props=$(ls -d ${pre}C* 2>/dev/null | sed "s#${pre}##")
 for prop in $props; do
   wt=${pre}$prop
